@@ -722,7 +722,7 @@ func verifyOneSigWithWork(
 	}
 
 	if !IsSupportedDNSKEYAlgorithm(sig.Algorithm) {
-		return dns.ErrAlg
+		return ErrUnsupportedRRSIGAlgorithm
 	}
 	if !signatureMatchesRRset(sig, set) {
 		return ErrMissingSigned
@@ -758,7 +758,17 @@ func verifyOneSigWithWork(
 			}
 			candidateUsed++
 			*rrsetUsed++
-			lastErr = err
+			// The key is the right one and the signature does not verify:
+			// that is a bogus RRset (RFC 4035 §5.3.3, RFC 8914 code 6). The
+			// bare library error carries no Extended DNS Error, so it would
+			// reach the client — and the layers above that tell a validation
+			// failure from an ordinary SERVFAIL by that code, DNS64 among
+			// them — as "Other".
+			lastErr = &dnsutil.EDEError{
+				Code:    dns.ExtendedErrorCodeDNSBogus,
+				Message: "RRSIG does not verify against the zone's DNSKEY",
+				Err:     err,
+			}
 			continue
 		}
 		*rrsetUsed++
